@@ -32,7 +32,8 @@ type C17Step struct {
 }
 
 type C17Case struct {
-	MainKind string            `json:"main_kind"` // valid missing malformed dir empty none(-d not passed)
+	Sched    []uint16          `json:"sched,omitempty"` // schedule vector of every process of the case (goroutines / channels / select inside the tool)
+	MainKind string            `json:"main_kind"`       // valid missing malformed dir empty none(-d not passed)
 	Main     []Cmd             `json:"main,omitempty"`
 	Notebook []Cmd             `json:"notebook,omitempty"`
 	Markers  []string          `json:"markers,omitempty"`
@@ -227,6 +228,9 @@ func genC17(rt *rapid.T) C17Case {
 		}
 	}
 	c.Steps = steps
+	if rapid.IntRange(0, 2).Draw(rt, "hassched") == 0 {
+		c.Sched = genSchedule(rt, 40)
+	}
 	return c
 }
 
@@ -330,6 +334,7 @@ type histDoc struct {
 func runC17(c C17Case) *Outcome {
 	o := &Outcome{Probes: map[string]int{}, Faults: map[string]int{}}
 	w := newPWorld()
+	w.sched = c.Sched
 	switch c.MainKind {
 	case "valid", "none":
 		w.disk.WriteRaw(pMainDB, yamlOf(c.Main), 0o644)
